@@ -160,3 +160,12 @@ reg('C10', engine='pysym + llsym',
     note='Trusted: pysym proxies, llsym semantics, GCC\'s enum rule as stated, abstract dict model. API-mode enum '
          'size/sign (taken from the compiler) not covered.',
     technique='symbolic execution via proxy values (Python) and of LLVM IR (C), SMT (z3)')
+
+reg('C37', engine='llsym',
+    text='Bounded symbolic execution of the real in-line library accessors and of ffi_dlclose/lib_getattr/lib_setattr/'
+         'cdlopen_fetch from the closed state (and of close from the open state with any handle and cached entries): '
+         'no dlsym/dlclose call and no access to the unmapped library memory after a close, errors raised, closing '
+         'again harmless; each step preserves the closed state, so any history is covered.',
+    note='Trusted: clang IR, llsym semantics, abstract dict model, dlsym/dlclose stubs; lib_build_and_cache_attr is '
+         'represented by its call to the real cdlopen_fetch. The Python wrapper in api.py is not covered.',
+    technique='symbolic execution of LLVM IR from an arbitrary closed/open state, SMT (z3)')
